@@ -14,7 +14,7 @@ SHARDS = {"quick": 8, "thorough": 16}
 RULE = ("cases: (a) enc: msmart _Packet.encode(id, frame) decoded by the independent V2 decoder; (b) dec: packets built by "
         "the independent encoder (varying message id, timestamp, magic, reserved bytes) decoded by _Packet.decode; (c) send: "
         "LAN.send on a V2 connection against the model device, optionally through the public Device object, with the device stamping a different id on its replies, with further exchanges on the same object, with the first transmissions lost (retransmissions must decode too) and after another LAN object with a different id sent the same frame. Sweep of all frame lengths 0..255 x boundary ids, plus "
-        "Hypothesis-generated frames/ids/clock values. Non-trivial: len(frame)>=1 and (len%16 in {0,15} or id>=2^32 or "
+        "Hypothesis-generated frames/ids/clock values, with the process's monotonic clock up to years past import time. Non-trivial: len(frame)>=1 and (len%16 in {0,15} or id>=2^32 or "
         "frame contains 5A5A). Distinct by (kind, frame, id).")
 ASSUMPTIONS = ["AES block primitive, MD5 shared with the code under test (trusted base)",
                "V2 request message type is 0x0111 and magic 0x2000 as documented in msmart/lan.py"]
@@ -36,12 +36,20 @@ def check_case(case: dict):
     dev_id = case["id"]
     if kind == "enc":
         vloop.set_fixed_clock(case.get("ts", 0.0))
+        import time as _time
+        real_mono, real_time = _time.monotonic, _time.time
+        up = case.get("uptime_days", 0) * 86400.0
+        if up:
+            # the process has been running for a long time (monotonic clock and time.time far from their values at import)
+            _time.monotonic = lambda: real_mono() + up
+            _time.time = lambda: real_time() + up
         try:
             pkt = _Packet.encode(dev_id, frame)
         except Exception as e:
-            return (f"enc/raises/{type(e).__name__}", f"_Packet.encode raised {e!r}")
+            return (f"enc/raises/{type(e).__name__}", f"_Packet.encode raised {e!r} (process uptime {case.get('uptime_days', 0)} days)")
         finally:
             vloop.CURRENT = None
+            _time.monotonic, _time.time = real_mono, real_time
         try:
             p = rc.v2_decode(pkt)
         except rc.RefError as e:
@@ -162,7 +170,7 @@ def run(ctx) -> None:
             if L >= 4 and j % 2 == 1:
                 frame = frame[:1] + b"\x5a\x5a" + frame[3:]
             for kind in ("enc", "dec"):
-                case = {"kind": kind, "frame": frame.hex(), "id": dev_id, "ts": 86400.0 * (L + 1) * 9.37 + j,
+                case = {"kind": kind, "frame": frame.hex(), "id": dev_id, "ts": 86400.0 * (L + 1) * 9.37 + j, "uptime_days": [0, 50, 400, 4000][L % 4],
                         "tsb": bytes([L & 0xFF, j, 3, 4, 5, 6, 24, 20]).hex(), "mid": bytes([j, L & 0xFF, 0, 1]).hex(),
                         "magic": ["2000", "2080", "7a80", "0000"][(L + j) % 4], "res": bytes([(L + k) & 0xFF for k in range(12)]).hex()}
                 ctx.check(case, lambda c: _run_one(ctx, c))
@@ -172,7 +180,8 @@ def run(ctx) -> None:
     enc_cases = st.fixed_dictionaries({
         "kind": st.just("enc"), "frame": hexb(gens.frames_bytes(255)), "id": gens.device_ids(64),
         # 1970 .. 9999 relative to the 2024 epoch, with microseconds
-        "ts": st.floats(min_value=-1.7e9, max_value=2.5e11, allow_nan=False, allow_infinity=False)})
+        "ts": st.floats(min_value=-1.7e9, max_value=2.5e11, allow_nan=False, allow_infinity=False)},
+        optional={"uptime_days": st.sampled_from([0, 1, 25, 49.8, 50, 400, 4000])})
     dec_cases = st.fixed_dictionaries({
         "kind": st.just("dec"), "frame": hexb(gens.frames_bytes(255)), "id": gens.device_ids(64),
         "tsb": hexb(st.binary(min_size=8, max_size=8)), "mid": hexb(st.binary(min_size=4, max_size=4)),
